@@ -22,9 +22,29 @@ def main():
     ap.add_argument("--db")
     ap.add_argument("--line")
     ap.add_argument("--kill-at", default="none")
+    ap.add_argument("--startup-kill", default=None,
+                    help="die immediately BEFORE the K-th schema statement (CREATE ...) of the server's start on the file; "
+                         "'count' = start completely and report how many there were")
     a = ap.parse_args()
     import impl_engine
     from sqlalchemy import event
+    if a.startup_kill is not None:
+        from sqlalchemy.engine import Engine as _SAEngine
+        seen = {"n": 0}
+
+        def on_stmt(conn, cursor, statement, parameters, context, executemany):
+            if statement.strip().split()[0].upper() != "CREATE":
+                return
+            seen["n"] += 1
+            if a.startup_kill != "count" and seen["n"] == int(a.startup_kill):
+                os._exit(99)
+        event.listen(_SAEngine, "before_cursor_execute", on_stmt)
+        from kmip.services.server import engine as engine_mod
+        impl_engine.quiet()
+        engine_mod.KmipEngine(database_path=a.db)
+        sys.stdout.write(json.dumps({"ev": "started", "schema_statements": seen["n"]}) + "\n")
+        sys.stdout.flush()
+        os._exit(0)
     line = json.loads(a.line)
     E = impl_engine.ImplEngine.__new__(impl_engine.ImplEngine)
     # open on an existing file (do not create a temp dir)
